@@ -14,6 +14,9 @@ func TestProp(t *testing.T) { hx.Check(t, "program", Gen, Exec) }
 // TestPropListRace: listings racing with the last change of a directory (listrace.go).
 func TestPropListRace(t *testing.T) { hx.Check(t, "listrace", GenListRace, ExecListRace) }
 
+// TestPropHandles: a goroutine with an open stream handle on a file makes a second call while others use that file (handles.go).
+func TestPropHandles(t *testing.T) { hx.Check(t, "handles", GenHandle, ExecHandle) }
+
 func TestReplay(t *testing.T) {
-	hx.Replay(t, map[string]func(json.RawMessage) (hx.Verdict, error){"program": hx.Exec(Exec), "": hx.Exec(Exec), "listrace": hx.Exec(ExecListRace)})
+	hx.Replay(t, map[string]func(json.RawMessage) (hx.Verdict, error){"program": hx.Exec(Exec), "": hx.Exec(Exec), "listrace": hx.Exec(ExecListRace), "handles": hx.Exec(ExecHandle)})
 }
